@@ -1,11 +1,584 @@
 /-
-  HotXL.Model.Fn.Round — builtin functions of this family (filled in as the family is modelled).
+  HotXL.Model.Fn.Round — model of the rounding / integer / radix / roman-numeral builtins of
+  hotxlfp/formulas/mathtrig.py:
+    ROUND ROUNDUP ROUNDDOWN CEILING(.MATH/.PRECISE) FLOOR(.MATH/.PRECISE) INT EVEN ODD QUOTIENT MOD SIGN
+    FACT FACTDOUBLE BASE DECIMAL ROMAN ARABIC
+
+  Conventions
+  * a Python `float` is its exact rational value (`Num.flt q`); float ROUNDING ERROR is not modelled
+    (so `x / s`, `abs(x) * 10**d` … are the exact quotients/products).  Python `int` is `Num.int`.
+    The int/float distinction of every result is modelled.
+  * `.error e` = the Python function RAISED (TypeError … → `#ERROR!`); a *returned* error value is
+    `.ok (.err e)`.
+  * inputs the model does not describe (a non-integral `digits` — `10**0.5` is irrational —,
+    `str()` of a float/date/list) give `unmodelled`; the harness skips those.
+  * text handling is ASCII (Python's `int()` also takes non-ASCII digits, `str.upper()` maps a few
+    non-ASCII letters to ASCII ones).
+  The magic numbers / tables come from `HotXL.Generated.Round` (regenerated from /repo).
 -/
 import HotXL.Model.Fn.Common
+import HotXL.Generated.Round
 
 namespace HotXL.Fn.Round
 open HotXL HotXL.Ops HotXL.Fn
 
-def table : List (String × Builtin) := []
+/-- stand-in for an input outside the modelled fragment -/
+def unmodelled : Except Err Value := .ok (.other "unmodelled")
+
+/-! ### Python numeric helpers (exact) -/
+
+def ratAbs (q : Rat) : Rat := if q < 0 then -q else q
+
+/-- `int(x)` on a float: truncation toward zero -/
+def ratTrunc (q : Rat) : Int := if 0 ≤ q then q.floor else q.ceil
+
+/-- `10 ** d` (an int for `d ≥ 0`, a float otherwise — here: its exact value) -/
+def pow10 (d : Int) : Rat :=
+  if 0 ≤ d then ((10 ^ d.toNat : Nat) : Rat) else 1 / ((10 ^ (-d).toNat : Nat) : Rat)
+
+/-- round-half-even to an integer (Python `round`) -/
+def halfEven (q : Rat) : Int :=
+  let f := q.floor
+  let r := q - (f : Rat)
+  if r < 1 / 2 then f
+  else if 1 / 2 < r then f + 1
+  else if f % 2 = 0 then f else f + 1
+
+/-- the integer a `digits`-like argument denotes when it is integral (`2`, `2.0`, `True`) -/
+def integral? : Num → Option Int
+  | .int d => some d
+  | .flt q => if q.den = 1 then some q.num else none
+
+def numAbs : Num → Num
+  | .int i => .int (if i < 0 then -i else i)
+  | .flt q => .flt (ratAbs q)
+
+/-- `k * s` for a Python int `k` -/
+def mulInt (k : Int) : Num → Num
+  | .int i => .int (k * i)
+  | .flt q => .flt ((k : Rat) * q)
+
+/-- Python `round(x, d)` with an int `d`: ints stay ints -/
+def pyRound (x : Num) (d : Int) : Num :=
+  match x with
+  | .int i =>
+    if 0 ≤ d then .int i
+    else
+      let m : Int := ((10 ^ (-d).toNat : Nat) : Int)
+      .int (halfEven ((i : Rat) / (m : Rat)) * m)
+  | .flt q => .flt ((halfEven (q * pow10 d) : Rat) / pow10 d)
+
+/-- ROUND(number, digits) -/
+def ROUND : Builtin
+  | [a, b] =>
+    match parseNumber a, parseNumber b with
+    | .ok x, .ok (.int d) => .ok (.num (pyRound x d))
+    | .ok _, .ok (.flt _) => .error .error          -- TypeError: 'float' object cannot be interpreted as an integer
+    | _, _ => .ok (.err .value)
+  | _ => .error .error
+
+/-- `digits ≥ 0`: `sign * (ceil|floor)(abs(number) * 10**digits) / 10**digits` — always a float -/
+def roundDir (up : Bool) (q : Rat) (d : Int) : Rat :=
+  let s : Rat := if 0 < q then 1 else -1
+  let scaled := ratAbs q * pow10 d
+  let k : Int := if up then scaled.ceil else scaled.floor
+  s * (k : Rat) / pow10 d
+
+/-- `digits < 0`: `sign * (ceil|floor)(abs(number) / 10**-digits) * 10**-digits` with the exact
+    integer `10**-digits` — an int (when `digits` is an int) -/
+def roundDirNeg (up : Bool) (q : Rat) (d : Int) : Int :=
+  let s : Int := if 0 < q then 1 else -1
+  let m : Int := ((10 ^ (-d).toNat : Nat) : Int)
+  let scaled := ratAbs q / (m : Rat)
+  let k : Int := if up then scaled.ceil else scaled.floor
+  s * k * m
+
+def roundDirFn (up : Bool) : Builtin
+  | [a, b] =>
+    match parseNumber a, parseNumber b with
+    | .ok x, .ok dn =>
+      (match integral? dn with
+       | some d =>
+         if d < 0 then
+           (match dn with
+            | .int _ => .ok (.num (.int (roundDirNeg up (Num.toRat x) d)))
+            | .flt _ => .ok (.num (.flt ((roundDirNeg up (Num.toRat x) d : Int) : Rat))))   -- `10**2.0` is a float
+         else .ok (.num (.flt (roundDir up (Num.toRat x) d)))
+       | none => unmodelled)
+    | _, _ => .ok (.err .value)
+  | _ => .error .error
+
+/-- ROUNDUP(number, digits) -/
+def ROUNDUP : Builtin := roundDirFn true
+/-- ROUNDDOWN(number, digits) -/
+def ROUNDDOWN : Builtin := roundDirFn false
+
+/-- the body of CEILING after argument parsing -/
+def ceilingNum (x s : Num) : Value :=
+  if Num.isZero s then .num (.int 0) else
+  let positive := 0 < Num.toRat s
+  let sa := numAbs s
+  let q := Num.toRat x
+  if 0 ≤ q then .num (mulInt (q / Num.toRat sa).ceil sa)
+  else if positive then .num (mulInt (-1 * (ratAbs q / Num.toRat sa).floor) sa)
+  else .num (mulInt (-1 * (ratAbs q / Num.toRat sa).ceil) sa)
+
+def ceilingCore (a b : Value) : Except Err Value :=
+  match parseNumber a, parseNumber b with
+  | .ok x, .ok s => .ok (ceilingNum x s)
+  | _, _ => .ok (.err .value)
+
+/-- CEILING(number, significance=1) (also CEILING.MATH, CEILING.PRECISE) -/
+def CEILING : Builtin
+  | [a] => ceilingCore a (.num (.int 1))
+  | [a, b] => ceilingCore a b
+  | _ => .error .error
+
+/-- the body of FLOOR after argument parsing -/
+def floorNum (x s : Num) : Value :=
+  if Num.isZero s then .num (.int 0) else
+  let q := Num.toRat x
+  let positive := 0 < Num.toRat s
+  if 0 < q && !positive then .err .num else
+  let sa := numAbs s
+  if 0 ≤ q then .num (mulInt (q / Num.toRat sa).floor sa)
+  else if positive then .num (mulInt (-1 * (ratAbs q / Num.toRat sa).ceil) sa)
+  else .num (mulInt (-1 * (ratAbs q / Num.toRat sa).floor) sa)
+
+def floorCore (a b : Value) : Except Err Value :=
+  match parseNumber a, parseNumber b with
+  | .ok x, .ok s => .ok (floorNum x s)
+  | _, _ => .ok (.err .value)
+
+/-- FLOOR(number, significance=1) (also FLOOR.MATH, FLOOR.PRECISE) -/
+def FLOOR : Builtin
+  | [a] => floorCore a (.num (.int 1))
+  | [a, b] => floorCore a b
+  | _ => .error .error
+
+/-- QUOTIENT(numerator, denominator): `int(numerator / denominator)` -/
+def QUOTIENT : Builtin
+  | [a, b] =>
+    match parseNumber a, parseNumber b with
+    | .ok n, .ok d =>
+      if Num.isZero d then .ok (.err .div0)
+      else .ok (.num (.int (ratTrunc (Num.toRat n / Num.toRat d))))
+    | _, _ => .ok (.err .value)
+  | _ => .error .error
+
+/-- Python `a % b` (floor-based), `b ≠ 0` -/
+def pyMod : Num → Num → Num
+  | .int a, .int b => .int (Int.fmod a b)
+  | a, b => .flt (Num.toRat a - Num.toRat b * ((Num.toRat a / Num.toRat b).floor : Rat))
+
+/-- MOD(numerator, denominator) -/
+def MOD : Builtin
+  | [a, b] =>
+    match parseNumber a with
+    | .error e => .ok (.err e)
+    | .ok n =>
+      match parseNumber b with
+      | .error e => .ok (.err e)
+      | .ok d =>
+        if Num.isZero d then .ok (.err .div0) else
+        let modulus := numAbs (pyMod n d)
+        .ok (.num (if 0 < Num.toRat d then modulus else numNeg modulus))
+  | _ => .error .error
+
+/-- ODD(number) -/
+def ODD : Builtin
+  | [a] =>
+    match parseNumber a with
+    | .error e => .ok (.err e)
+    | .ok n =>
+      let q := Num.toRat n
+      let tmp := (ratAbs q).ceil
+      let tmp := if tmp % 2 = 1 then tmp else tmp + 1
+      .ok (.num (.int (if 0 ≤ q then tmp else -tmp)))
+  | _ => .error .error
+
+/-- EVEN(number) -/
+def EVEN : Builtin
+  | [a] =>
+    match parseNumber a with
+    | .error e => .ok (.err e)
+    | .ok n =>
+      let q := Num.toRat n
+      let tmp := (ratAbs q).ceil
+      let tmp := if tmp % 2 = 0 then tmp else tmp + 1
+      .ok (.num (.int (if 0 < q then tmp else -tmp)))
+  | _ => .error .error
+
+/-- `math.factorial` -/
+def fact : Nat → Nat
+  | 0 => 1
+  | n + 1 => (n + 1) * fact n
+
+/-- `reduce(operator.mul, range(n, 1, -2))` with the `n in (0, 1)` guard -/
+def dfact : Nat → Nat
+  | 0 => 1
+  | 1 => 1
+  | n + 2 => (n + 2) * dfact n
+
+/-- FACT(number) -/
+def FACT : Builtin
+  | [a] =>
+    match parseNumber a with
+    | .error e => .ok (.err e)
+    | .ok n =>
+      if Num.toRat n < 0 then .ok (.err .num)
+      else .ok (.num (.int (fact (ratTrunc (Num.toRat n)).toNat)))
+  | _ => .error .error
+
+/-- FACTDOUBLE(number) -/
+def FACTDOUBLE : Builtin
+  | [a] =>
+    match parseNumber a with
+    | .error e => .ok (.err e)
+    | .ok n =>
+      if Num.toRat n < 0 then .ok (.err .num)
+      else .ok (.num (.int (dfact (ratTrunc (Num.toRat n)).toNat)))
+  | _ => .error .error
+
+/-- INT(number): no text parsing, `isinstance(number, (int, float))` (bool is an int) -/
+def INT : Builtin
+  | [v] =>
+    match asNumber? v with
+    | none => .ok (.err .value)
+    | some n =>
+      let q := Num.toRat n
+      let t := ratTrunc q
+      if 0 ≤ q then .ok (.num (.int t))
+      else if q < (t : Rat) then .ok (.num (.int (t - 1)))
+      else .ok (.num (.int t))
+  | _ => .error .error
+
+/-- SIGN(number) -/
+def SIGN : Builtin
+  | [v] =>
+    match asNumber? v with
+    | none => .ok (.err .value)
+    | some n =>
+      let q := Num.toRat n
+      if q = 0 then .ok (.num (.int 0))
+      else if 0 < q then .ok (.num (.int 1))
+      else .ok (.num (.int (-1)))
+  | _ => .error .error
+
+/-! ### text of a value, `int(text, base)` -/
+
+/-- Python `str(x)` where its text is fixed by the language; `none` = float/date/list/object -/
+def pyStrOf : Value → Option (List Char)
+  | .str s => some s
+  | .num (.int i) => some (PyNum.intToDec i)
+  | .bool true => some "True".toList
+  | .bool false => some "False".toList
+  | .blank => some "None".toList
+  | .err e => some e.code.toList
+  | _ => none
+
+/-- value of an ASCII digit/letter as a digit (`0-9`, `a-z`, `A-Z`) -/
+def digitVal (c : Char) : Option Nat :=
+  let n := c.toNat
+  if 48 ≤ n && n ≤ 57 then some (n - 48)
+  else if 65 ≤ n && n ≤ 90 then some (n - 55)
+  else if 97 ≤ n && n ≤ 122 then some (n - 87)
+  else none
+
+/-- digits in radix `base` with single underscores allowed between digits; `prev` = the previous
+    character was a digit (an underscore needs a digit on both sides; after a radix prefix a
+    leading underscore is allowed, which the caller expresses by `prev = true`) -/
+def digitsBase (base : Nat) : List Char → Nat → Bool → Option Nat
+  | [], acc, prev => if prev then some acc else none
+  | c :: rest, acc, prev =>
+    if c = '_' then
+      if prev then
+        match rest with
+        | [] => none
+        | _ :: _ => digitsBase base rest acc false
+      else none
+    else
+      match digitVal c with
+      | some d => if d < base then digitsBase base rest (acc * base + d) true else none
+      | none => none
+
+/-- digits after a radix prefix (`0x…`): a leading underscore is allowed -/
+def prefixedBody (b : Nat) (r : List Char) : Option Nat :=
+  match r with
+  | [] => none
+  | c :: _ => if c = '_' then digitsBase b r 0 true else digitsBase b r 0 false
+
+/-- digits without a prefix: no leading underscore -/
+def plainBody (b : Nat) (s : List Char) : Option Nat :=
+  match s with
+  | [] => none
+  | c :: _ => if c = '_' then none else digitsBase b s 0 false
+
+/-- the unsigned body of an `int(text, base)` literal: optional `0x/0o/0b` prefix matching the
+    base (base 0: the prefix chooses the base; no prefix: decimal without leading zeros unless all
+    zeros) -/
+def unsignedBase (base : Nat) (s : List Char) : Option Nat :=
+  match s with
+  | '0' :: p :: r =>
+    if (p = 'x' || p = 'X') && (base = 16 || base = 0) then prefixedBody 16 r
+    else if (p = 'o' || p = 'O') && (base = 8 || base = 0) then prefixedBody 8 r
+    else if (p = 'b' || p = 'B') && (base = 2 || base = 0) then prefixedBody 2 r
+    else if base = 0 then
+      -- "0…" in base 0: only zeros (and underscores) may follow
+      (match digitsBase 10 s 0 false with
+       | some 0 => some 0
+       | _ => none)
+    else plainBody base s
+  | _ => if base = 0 then plainBody 10 s else plainBody base s
+
+/-- `int(text, base)`; `none` = ValueError (bad literal, or a base other than 0, 2…36) -/
+def pyIntBase? (s : List Char) (base : Int) : Option Int :=
+  if base < 0 then none else
+  let b := base.toNat
+  if !(b = 0 || (2 ≤ b && b ≤ 36)) then none else
+  match PyNum.strip s with
+  | '-' :: r => (unsignedBase b r).map (fun n => - (n : Int))
+  | '+' :: r => (unsignedBase b r).map (fun n => (n : Int))
+  | r => (unsignedBase b r).map (fun n => (n : Int))
+
+/-- DECIMAL(text, base) -/
+def DECIMAL : Builtin
+  | [t, b] =>
+    match parseNumber b with
+    | .error e => .ok (.err e)
+    | .ok (.flt _) => .error .error            -- TypeError: 'float' object cannot be interpreted as an integer
+    | .ok (.int base) =>
+      match pyStrOf t with
+      | none => unmodelled
+      | some s =>
+        match pyIntBase? s base with
+        | some dec => .ok (.num (.int (if Generated.decimalHalf ≤ dec then dec - Generated.decimalWrap else dec)))
+        | none => .ok (.err .value)
+  | _ => .error .error
+
+/-! ### BASE -/
+
+def alphabet : List Char := Generated.baseAlphabet.toList
+
+/-- the `while value: digits.append(int(value % base)); value //= base` loop on ints: the digits,
+    least significant first.  `value // base < value` for `base ≥ 2`, `value > 0` is the
+    termination argument (for `base < 2` the loop does not terminate in Python — BASE guards it). -/
+def baseDigits (b n : Nat) : List Nat :=
+  if _h : 2 ≤ b ∧ n ≠ 0 then (n % b) :: baseDigits b (n / b) else []
+termination_by n
+decreasing_by exact Nat.div_lt_self (by omega) (by omega)
+
+/-- the same loop when value or base is a float: after the first step the value is integral.
+    `n` is the (integral) current value; the `dite` carries the decrease `⌊n / b⌋ < n`, which
+    holds whenever `b ≥ 2` (so the `else` branch is only reached at `n = 0`). -/
+def baseDigitsRat (b : Rat) (n : Nat) : List Nat :=
+  if n = 0 then [] else
+  let next := ((n : Rat) / b).floor.toNat
+  let d := (ratTrunc ((n : Rat) - b * (((n : Rat) / b).floor : Rat))).toNat
+  if _h : next < n then d :: baseDigitsRat b next else [d]
+termination_by n
+
+/-- `''.join(alphabet[n] for n in digits[::-1])` -/
+def digitsText (ds : List Nat) : List Char := ds.reverse.map (fun d => alphabet.getD d '?')
+
+/-- `str.rjust(width, '0')` -/
+def rjustZero (s : List Char) (width : Nat) : List Char := List.replicate (width - s.length) '0' ++ s
+
+/-- the text of the digit loop for `value > 0` -/
+def baseText (value base : Num) : List Char :=
+  match value, base with
+  | .int v, .int b => digitsText (baseDigits b.toNat v.toNat)
+  | v, b =>
+    let q := Num.toRat v
+    let r := Num.toRat b
+    let fl := (q / r).floor
+    let d0 := (ratTrunc (q - r * (fl : Rat))).toNat
+    digitsText (d0 :: baseDigitsRat r fl.toNat)
+
+/-- `places is not DEFAULT and places < 0` -/
+def negPlaces : Option Num → Bool
+  | some p => decide (Num.toRat p < 0)
+  | none => false
+
+def baseCore (v b : Value) (places : Option Value) : Except Err Value :=
+  match parseNumber v with
+  | .error e => .ok (.err e)
+  | .ok value =>
+    match parseNumber b with
+    | .error e => .ok (.err e)
+    | .ok base =>
+      let pl : Except Err (Option Num) :=
+        match places with
+        | none => .ok none
+        | some p => (parseNumber p).map some
+      match pl with
+      | .error e => .ok (.err e)
+      | .ok pl =>
+        if negPlaces pl then .ok (.err .num) else
+        if Num.toRat value < 0 || Num.toRat base < (Generated.baseMin : Rat) || (Generated.baseMax : Rat) < Num.toRat base
+        then .ok (.err .num) else
+        if Num.isZero value then .ok (.str ['0']) else
+        let result := baseText value base
+        match pl with
+        | none => .ok (.str result)
+        | some p =>
+          if Num.toRat p < (result.length : Rat) then .ok (.err .num) else
+          match p with
+          | .int w => .ok (.str (rjustZero result w.toNat))
+          | .flt _ => .error .error            -- TypeError in str.rjust
+
+/-- BASE(value, base, places=DEFAULT) -/
+def BASE : Builtin
+  | [v, b] => baseCore v b none
+  | [v, b, p] => baseCore v b (some p)
+  | _ => .error .error
+
+/-! ### ROMAN -/
+
+def romanMap : List (Nat × List Char) := Generated.romanNumeralMap.map (fun p => (p.1, p.2.toList))
+
+/-- the inner loop of `numerals(compress)` over `numeral_map[i:]`: `acc` is the deque
+    (`appendleft` = cons); `compress = none` stands for a value no length ever equals.
+    (Nat subtraction: the map is strictly decreasing, pinned by a lemma.) -/
+def inbetween (compress : Option Nat) (arabic : Nat) (roman : List Char) :
+    List (Nat × List Char) → List (Nat × List Char) → List (Nat × List Char)
+  | [], acc => acc
+  | (sa, sr) :: rest, acc =>
+    let v := arabic - sa
+    if romanMap.contains (v, sr) then inbetween compress arabic roman rest acc
+    else
+      let acc' := (v, sr ++ roman) :: acc
+      if some acc'.length = compress then acc' else inbetween compress arabic roman rest acc'
+
+def numeralsFrom (compress : Option Nat) : List (Nat × List Char) → List (Nat × List Char)
+  | [] => []
+  | (a, r) :: rest => (a, r) :: (inbetween compress a r rest [] ++ numeralsFrom compress rest)
+
+/-- the generator `numerals(compress)` as a list -/
+def numerals (compress : Option Nat) : List (Nat × List Char) := numeralsFrom compress romanMap
+
+def repeatStr (s : List Char) : Nat → List Char
+  | 0 => []
+  | n + 1 => s ++ repeatStr s n
+
+/-- the greedy loop on an int `number` (`int(number / arabic)` = floor division for these sizes) -/
+def romanLoop : List (Nat × List Char) → Nat → List Char
+  | [], _ => []
+  | (a, r) :: rest, n =>
+    if n = 0 then [] else
+    let c := n / a
+    repeatStr r c ++ romanLoop rest (n - a * c)
+
+/-- the greedy loop on a float `number` -/
+def romanLoopRat : List (Nat × List Char) → Rat → List Char
+  | [], _ => []
+  | (a, r) :: rest, q =>
+    if q = 0 then [] else
+    let c := (ratTrunc (q / (a : Rat))).toNat
+    repeatStr r c ++ romanLoopRat rest (q - ((a * c : Nat) : Rat))
+
+/-- `numerals(form + 1)` for a numeric `form` -/
+def compressOf (form : Num) : Option Nat :=
+  match integral? form with
+  | some f => some (f + 1).toNat
+  | none => none
+
+def romanCore (a : Value) (f : Value) : Except Err Value :=
+  let form : Except Err Num :=
+    match f with
+    | .bool true => .ok (.int Generated.romanTrueForm)
+    | .bool false => .ok (.int Generated.romanFalseForm)
+    | _ => parseNumber f
+  match parseNumber a, form with
+  | .ok n, .ok fm =>
+    let q := Num.toRat n
+    let fq := Num.toRat fm
+    if !(0 < q && q < (Generated.romanLimit : Rat) && 0 ≤ fq && fq ≤ (Generated.romanMaxForm : Rat)) then .ok (.err .value) else
+    match n with
+    | .int i => .ok (.str (romanLoop (numerals (compressOf fm)) i.toNat))
+    | .flt q => .ok (.str (romanLoopRat (numerals (compressOf fm)) q))
+  | _, _ => .ok (.err .value)
+
+/-- ROMAN(number, form=0) -/
+def ROMAN : Builtin
+  | [a] => romanCore a (.num (.int 0))
+  | [a, f] => romanCore a f
+  | _ => .error .error
+
+/-! ### ARABIC -/
+
+/-- the regular expressions the hand-written matcher/tokeniser below stand for -/
+def expectedArabicRegex : String := "^M{0,4}(CM|CD|D?C{0,3})(XC|XL|L?X{0,3})(IX|IV|V?I{0,3})$"
+def expectedArabicTokenRegex : String := "[MDLV]|C[MD]?|X[CL]?|I[XV]?"
+
+def upperAscii (c : Char) : Char :=
+  if 97 ≤ c.toNat && c.toNat ≤ 122 then Char.ofNat (c.toNat - 32) else c
+
+/-- drop up to `k` leading `c` -/
+def dropUpTo (c : Char) : Nat → List Char → List Char
+  | 0, s => s
+  | _ + 1, [] => []
+  | k + 1, x :: s => if x = c then dropUpTo c k s else x :: s
+
+/-- one decimal place of the regex: `(ten|five-one | five? one{0,3})` with `one`, `five`, `ten`
+    the three symbols; deterministic because no later part of the pattern can start with
+    `five`, `ten` or a fourth `one` -/
+def place (one five ten : Char) : List Char → List Char
+  | a :: b :: r =>
+    if a = one && b = ten then r
+    else if a = one && b = five then r
+    else if a = five then dropUpTo one 3 (b :: r)
+    else dropUpTo one 3 (a :: b :: r)
+  | [a] => if a = five then [] else dropUpTo one 3 [a]
+  | [] => []
+
+/-- `re.search(regex, text) is not None` (`$` also matches before one final newline) -/
+def arabicMatch (s : List Char) : Bool :=
+  let r := dropUpTo 'M' 4 s
+  let r := place 'C' 'D' 'M' r
+  let r := place 'X' 'L' 'C' r
+  let r := place 'I' 'V' 'X' r
+  r = [] || r = ['\n']
+
+def arabicMap : List (List Char × Nat) := Generated.arabicNumeralMap.map (fun p => (p.1.toList, p.2))
+
+/-- `numeral_map[token]` (every token of the tokeniser is a key — pinned by a lemma) -/
+def tokenValue (t : List Char) : Nat :=
+  match arabicMap.find? (fun p => p.1 = t) with
+  | some p => p.2
+  | none => 0
+
+/-- `sum(numeral_map[m.group()] for m in re.finditer(tokenRegex, text))`: leftmost-greedy tokens,
+    other characters skipped -/
+def arabicSum : List Char → Nat
+  | [] => 0
+  | [c] => if c = 'M' || c = 'D' || c = 'L' || c = 'V' || c = 'C' || c = 'X' || c = 'I' then tokenValue [c] else 0
+  | a :: b :: r =>
+    if a = 'M' || a = 'D' || a = 'L' || a = 'V' then tokenValue [a] + arabicSum (b :: r)
+    else if a = 'C' then
+      if b = 'M' || b = 'D' then tokenValue [a, b] + arabicSum r else tokenValue [a] + arabicSum (b :: r)
+    else if a = 'X' then
+      if b = 'C' || b = 'L' then tokenValue [a, b] + arabicSum r else tokenValue [a] + arabicSum (b :: r)
+    else if a = 'I' then
+      if b = 'X' || b = 'V' then tokenValue [a, b] + arabicSum r else tokenValue [a] + arabicSum (b :: r)
+    else arabicSum (b :: r)
+
+/-- ARABIC(text) -/
+def ARABIC : Builtin
+  | [t] =>
+    match pyStrOf t with
+    | none => unmodelled
+    | some s =>
+      let u := s.map upperAscii
+      if arabicMatch u then .ok (.num (.int (arabicSum u))) else .ok (.err .value)
+  | _ => .error .error
+
+def table : List (String × Builtin) :=
+  [("ROUND", ROUND), ("ROUNDUP", ROUNDUP), ("ROUNDDOWN", ROUNDDOWN),
+   ("CEILING", CEILING), ("CEILING.MATH", CEILING), ("CEILING.PRECISE", CEILING),
+   ("FLOOR", FLOOR), ("FLOOR.MATH", FLOOR), ("FLOOR.PRECISE", FLOOR),
+   ("QUOTIENT", QUOTIENT), ("MOD", MOD), ("ODD", ODD), ("EVEN", EVEN),
+   ("FACT", FACT), ("FACTDOUBLE", FACTDOUBLE), ("INT", INT), ("SIGN", SIGN),
+   ("DECIMAL", DECIMAL), ("BASE", BASE), ("ROMAN", ROMAN), ("ARABIC", ARABIC)]
 
 end HotXL.Fn.Round
